@@ -4,6 +4,7 @@ import QuiverModel.Core.RefSem.Compile1
 import QuiverModel.Core.RefSem.Compile2
 import QuiverModel.Core.RefSem.Compile3
 import QuiverModel.Core.RefSem.Compile4
+import QuiverModel.Core.RefSem.Compile5
 /-
 qm_c02 — driver for M-RefSem. Requests:
   (eval <program> <fuel>)  →  ok <canonical value> | err <Class> | fuel-out | unspecified <why> | unsupported
@@ -23,6 +24,8 @@ qm_c02 — driver for M-RefSem. Requests:
   (compile4 (fns …) <chain4>+)  →  as compile3                             (Compile4: + `^` and builtin calls)
   (eval4 <fuel> (bis (<index> <name>)…) (fns …) <chain4>+)  →  ok <value> | stuck
       term4 ::= term3 | (tail) | (bcall <index>)
+  (compile5 …) / (eval5 …)  →  as compile4 / eval4                          (Compile5: + named tail calls)
+      term5 ::= term4 | (tailn x)
   (compile2 <chain2>+) / (eval2 <chain2>+)   the same with blocks (Core/RefSem/Compile2):
       term2 ::= term1 | (blk branch+)      branch ::= (br (s chain2+)) | (br (s chain2+) (s chain2+))
 The evaluation is `QM.RefSem.evalProgram`, the compilation `QM.RefSem.C0.compileCh` — the definitions
@@ -89,6 +92,7 @@ def showInstr : QM.VM.Instr → String
   | .function i => s!"function{i}"
   | .call => "call"
   | .tailCall true => "tailself"
+  | .tailCall false => "tailnamed"
   | .builtin i => s!"builtin{i}"
   | _ => "?"
 end C0Glue
@@ -411,6 +415,83 @@ def biSem (tab : List (Nat × String)) (i : Nat) (arg : QM.VM.Val) : Option QM.V
   | _, _ => none
 end C4Glue
 
+namespace C5Glue
+open QM.RefSem.C5
+open QM.RefSem.C1 (Sub Pat1)
+
+mutual
+  partial def parseT : Sx → Option T4
+    | .list [.atom "i", z, c] =>
+      match z.asInt, c.asNat with
+      | some z, some c => some (.int z c)
+      | _, _ => none
+    | .list [.atom "~"] => some .ripple
+    | .list [.atom "v", .atom x] => some (.var x)
+    | .list [.atom "m", p] => (C1Glue.parsePat p).map T4.mtch
+    | .list (.atom "blk" :: bs) => (parseBrs bs).map T4.block
+    | .list (.atom "fnlit" :: fi :: caps) =>
+      match fi.asNat with
+      | some fi => some (.fnlit fi (caps.filterMap (fun | .atom a => some a | _ => none)))
+      | none => none
+    | .list [.atom "call", .atom x] => some (.call x)
+    | .list [.atom "callnil", .atom x] => some (.callNil x)
+    | .list [.atom "tail"] => some .tailSelf
+    | .list [.atom "bcall", i] => i.asNat.map T4.bcall
+    | .list [.atom "tailn", .atom x] => some (.tailNamed x)
+    | .list (.atom "t" :: id :: fs) =>
+      match id.asNat, parseFs fs with
+      | some id, some fs => some (.tup id fs)
+      | _, _ => none
+    | _ => none
+  partial def parseCh : Sx → Option Ch4
+    | .list (.atom "ch" :: ts) => parseTs ts
+    | _ => none
+  partial def parseTs : List Sx → Option Ch4
+    | [] => some .nil
+    | t :: r =>
+      match parseT t, parseTs r with
+      | some t, some r => some (.cons t r)
+      | _, _ => none
+  partial def parseFs : List Sx → Option Fs4
+    | [] => some .nil
+    | c :: r =>
+      match parseCh c, parseFs r with
+      | some c, some r => some (.cons c r)
+      | _, _ => none
+  partial def parseSq : List Sx → Option Sq4
+    | [c] => (parseCh c).map Sq4.last
+    | c :: r =>
+      match parseCh c, parseSq r with
+      | some c, some r => some (.cons c r)
+      | _, _ => none
+    | [] => none
+  partial def parseS : Sx → Option Sq4
+    | .list (.atom "s" :: cs) => parseSq cs
+    | _ => none
+  partial def parseBrs : List Sx → Option Brs4
+    | [] => some .nil
+    | .list [.atom "br", c] :: r =>
+      match parseS c, parseBrs r with
+      | some c, some r => some (.cons c .none r)
+      | _, _ => none
+    | .list [.atom "br", c, k] :: r =>
+      match parseS c, parseS k, parseBrs r with
+      | some c, some k, some r => some (.cons c (.some k) r)
+      | _, _, _ => none
+    | _ => none
+end
+
+partial def parseFns : List Sx → Option FTab
+  | [] => some []
+  | .list (.atom "fn" :: fi :: .list (.atom "caps" :: caps) :: bs) :: r =>
+    match fi.asNat, parseBrs bs, parseFns r with
+    | some fi, some body, some r =>
+      some ((fi, ⟨caps.filterMap (fun | .atom a => some a | _ => none), body⟩) :: r)
+    | _, _, _ => none
+  | _ => none
+
+end C5Glue
+
 def c02Step (_ : Unit) (req : List Sx) : Unit × String :=
   match req with
   | [.list [.atom "eval", prog, fuel]] =>
@@ -475,6 +556,22 @@ def c02Step (_ : Unit) (req : List Sx) : Unit × String :=
     match fuel.asNat, C4Glue.parseFns fns, C4Glue.parseSq chs with
     | some n, some Φ, some sq =>
       match QM.RefSem.C4.evalSq (QM.RefSem.C4.topSem Φ (C4Glue.biSem (C4Glue.parseBis bis)) n) C3Glue.Γ₀
+          [QM.VM.Val.nil] QM.VM.Val.nil sq with
+      | some (.norm v _) => ((), "ok " ++ C3Glue.showVal3 v)
+      | some (.exit v) => ((), "ok " ++ C3Glue.showVal3 v)
+      | none => ((), "stuck")
+    | _, _, _ => ((), "bad-request")
+  | [.list (.atom "compile5" :: .list (.atom "fns" :: fns) :: chs)] =>
+    match C5Glue.parseFns fns, C5Glue.parseSq chs with
+    | some Φ, some sq =>
+      let entry := " ".intercalate ((QM.RefSem.C5.compileSq C3Glue.Γ₀ sq).1.map C0Glue.showInstr)
+      let fs := Φ.map (fun (fi, d) => s!" ; f{fi} " ++ " ".intercalate ((QM.RefSem.C5.fnCode d).map C0Glue.showInstr))
+      ((), "ok " ++ entry ++ String.join fs)
+    | _, _ => ((), "bad-request")
+  | [.list (.atom "eval5" :: fuel :: .list (.atom "bis" :: bis) :: .list (.atom "fns" :: fns) :: chs)] =>
+    match fuel.asNat, C5Glue.parseFns fns, C5Glue.parseSq chs with
+    | some n, some Φ, some sq =>
+      match QM.RefSem.C5.evalSq (QM.RefSem.C5.topSem Φ (C4Glue.biSem (C4Glue.parseBis bis)) n) C3Glue.Γ₀
           [QM.VM.Val.nil] QM.VM.Val.nil sq with
       | some (.norm v _) => ((), "ok " ++ C3Glue.showVal3 v)
       | some (.exit v) => ((), "ok " ++ C3Glue.showVal3 v)
